@@ -39,7 +39,7 @@ BlockXX(n1, n2, e) ==
       ints == IF n1 = 2 THEN bonds \o <<In("angles", <<1, 2, 3>>, <<"2", "150", "25">>)>> ELSE bonds
   IN MkBlock("XX", e, ats, ints)
 
-AllNames == <<"A", "B", "X1", "X2", "GLY", "ALA">>
+AllNames == <<"A", "B", "X1", "X2", "GLY", "ALA", "GLYC", "XALA">>
 LBond(ord, a, b, par) == [kind |-> "bond", ord |-> ord, rns |-> AllNames, a |-> a, b |-> b, sec |-> "bonds", par |-> par, xb |-> ""]
 LRemove(rns, a) == [kind |-> "remove", ord |-> "0", rns |-> rns, a |-> a, b |-> "", sec |-> "", par |-> <<>>, xb |-> ""]
 LRetype(rns, a, ty, q) == [kind |-> "retype", ord |-> "0", rns |-> rns, a |-> a, b |-> "", sec |-> "", par |-> <<ty, q>>, xb |-> ""]
@@ -100,21 +100,25 @@ BlockGLY == MkBlock("GLY", 1, TLCEval([a \in 1..3 |-> At(PN[a], "P5", QA[a], MA[
                       In("angles", <<1, 2, 3>>, <<"2", "127", "20">>), In("exclusions", <<1, 3>>, <<>>)>>)
 BlockALA == MkBlock("ALA", 1, TLCEval([a \in 1..2 |-> At(PN[a], "P4", QB[a], MB[a], CGB[a], 1, "ALA")]),
                     <<In("constraints", <<1, 2>>, <<"1", "0.27">>)>>)
-BlockBM == MkBlock("B", 1, TLCEval([a \in 1..2 |-> At(PN[a], "TB", QB[a], MB[a], 1, 1, "B")]), <<In("bonds", <<1, 2>>, <<"1", "0.41", "1000">>)>>)
+\* a residue that is NOT a protein residue although its name begins with (GLYC) or contains (XALA) an amino-acid name; it carries
+\* the atom names the terminal modifications target, so a modification that is applied to it shows
+NonProt(ff) == IF ff = 2 THEN "XALA" ELSE "GLYC"
+BlockBM(nm) == MkBlock(nm, 1, TLCEval([a \in 1..2 |-> At(PN[a], "TB", QB[a], MB[a], 1, 1, nm)]), <<In("bonds", <<1, 2>>, <<"1", "0.41", "1000">>)>>)
 LBondP == [kind |-> "bond", ord |-> "+", rns |-> AllNames, a |-> "CA", b |-> "N", sec |-> "bonds", par |-> <<"1", "0.35", "1250">>, xb |-> ""]
 MAt(an, rep, ty, q) == [an |-> an, rep |-> rep, ty |-> ty, q |-> q]
 ModNter(withInter) == [name |-> "N-ter", atoms |-> <<MAt("N", TRUE, "Qd", "1.0"), MAt("CA", FALSE, "", "")>>,
                        inters |-> IF withInter THEN <<[sec |-> "bonds", a |-> "N", b |-> "CA", par |-> <<"1", "0.9", "900">>]>> ELSE <<>>]
 ModCter == [name |-> "C-ter", atoms |-> <<MAt("CA", TRUE, "Qa", "-1.0")>>, inters |-> <<>>]
 FFsM == << \* 1: atom-removing link (replace atomname null) + retyping link + modifications without interactions
-           MkFF(<<BlockGLY, BlockALA, BlockBM>>, <<LBondP, LRemove(<<"ALA">>, "CA"), LRetype(<<"GLY">>, "CA", "ZZ", "0.75")>>, <<ModNter(FALSE), ModCter>>),
+           MkFF(<<BlockGLY, BlockALA, BlockBM(NonProt(1))>>, <<LBondP, LRemove(<<"ALA">>, "CA"), LRetype(<<"GLY">>, "CA", "ZZ", "0.75")>>, <<ModNter(FALSE), ModCter>>),
            \* 2: modifications with an interaction, retyping link that is overridden by a modification
-           MkFF(<<BlockGLY, BlockALA, BlockBM>>, <<LBondP, LRetype(<<"GLY", "ALA">>, "N", "ZN", "0.125")>>, <<ModNter(TRUE), ModCter>>),
+           MkFF(<<BlockGLY, BlockALA, BlockBM(NonProt(2))>>, <<LBondP, LRetype(<<"GLY", "ALA">>, "N", "ZN", "0.125")>>, <<ModNter(TRUE), ModCter>>),
            \* 3: removal, no modifications in the force field
-           MkFF(<<BlockGLY, BlockALA, BlockBM>>, <<LBondP, LRemove(<<"GLY">>, "C")>>, <<>>) >>
+           MkFF(<<BlockGLY, BlockALA, BlockBM(NonProt(3))>>, <<LBondP, LRemove(<<"GLY">>, "C")>>, <<>>) >>
 SelSets(n) == {<<>>, <<[pos |-> 1, mod |-> "N-ter"]>>, <<[pos |-> n, mod |-> "C-ter"]>>, <<[pos |-> 2, mod |-> "N-ter"]>>,
                <<[pos |-> 1, mod |-> "C-ter"], [pos |-> 1, mod |-> "N-ter"]>>}
-InputsM(ffs, ns, starts) == UNION {{MkInpF(FFsM, ff, n, st, kv, Chain(n), sel) : ff \in ffs, st \in starts, kv \in [1..n -> {"GLY", "ALA", "B"}], sel \in SelSets(n)} : n \in ns}
+InputsMff(ff, n, starts) == {MkInpF(FFsM, ff, n, st, kv, Chain(n), sel) : st \in starts, kv \in [1..n -> {"GLY", "ALA", NonProt(ff)}], sel \in SelSets(n)}
+InputsM(ffs, ns, starts) == UNION {UNION {InputsMff(ff, n, starts) : ff \in ffs} : n \in ns}
 
 (* ---------------- instance E: mixed exclusion distances (C14) ---------------- *)
 \* bonds along the chain c1-c2-c3 (variant 2: the last one a constraint), optional explicit exclusion c1 c3
